@@ -171,7 +171,7 @@ def run(ctx, report: Report) -> None:
         r2.note('no bs4-typed .prefix read found at all')
 
     # ---- R3 ------------------------------------------------------------------------------------------
-    r3 = report.rule('C12-R3', 'element namespace decision table', floor=30)
+    r3 = report.rule('C12-R3', 'element namespace decision table', floor=60)
     _, mn = src.func('css_match.CSSMatch.match_namespace')
     first_bad = None
     n = 0
@@ -221,7 +221,7 @@ def run(ctx, report: Report) -> None:
     implied_universal_tables(ctx, r4)
 
     # ---- R5 ------------------------------------------------------------------------------------------
-    r5 = report.rule('C12-R5', 'the prefix map is an immutable copy', floor=2)
+    r5 = report.rule('C12-R5', 'the prefix map is an immutable copy', floor=1)
     tmod = src.mod('css_types')
     init = tmod.functions.get('ImmutableDict.__init__')
     stores = [st for st in walk_no_nested(init) if isinstance(st, ast.Assign) and unparse(st.targets[0]) == 'self._d']
@@ -250,7 +250,7 @@ def run(ctx, report: Report) -> None:
         raise AnalysisError('ImmutableDict.__init__: store to self._d not found')
 
     # ---- R6 ------------------------------------------------------------------------------------------
-    r6 = report.rule('C12-R6', 'the caller\'s prefix map is in force for every list except inside HTML-only definitions, and is restored', floor=30)
+    r6 = report.rule('C12-R6', 'the caller\'s prefix map is in force for every list except inside HTML-only definitions, and is restored', floor=32)
     from .sem import list_context_table
     list_context_table(ctx, r6)
 
